@@ -26,7 +26,7 @@ MonInit(cfg) ==
    eclosing |-> {}, emaybe |-> 0,
    expC |-> <<>>, expE |-> <<>>, H |-> {}, stray |-> <<>>,
    rel |-> 0, relwin |-> FALSE,
-   lost |-> FALSE, idleOk |-> FALSE, owed |-> {}, rt |-> FALSE,
+   lost |-> FALSE, idleOk |-> FALSE, lout |-> [k |-> "none", c |-> -1, args |-> <<>>, why |-> ""], owed |-> {}, rt |-> FALSE,
    bad |-> <<>>, ulog |-> <<>>, uncl |-> 0, txns |-> 0, units |-> 0, evs |-> 0]
 
 AddBad(m, p, why) == [m EXCEPT !.bad = IF Len(@) < 12 THEN Append(@, [p |-> p, why |-> why, at |-> m.n, sid |-> m.cfg.sid]) ELSE @,
@@ -319,7 +319,9 @@ OnRd(m, b) ==
        IN IF b = LF THEN
              LET full == Append(m1.line, LF)
                  m2 == [m1 EXCEPT !.line = <<>>, !.nb = FALSE, !.lcr = FALSE]
-             IN IF m1.nb /\ ~m2.lost THEN StartTxn([m2 EXCEPT !.crl = m1.lcr], LineOutcome(m2.cfg, full)) ELSE m2
+                 o == LineOutcome(m2.cfg, full)
+             IN IF m1.nb /\ ~m2.lost THEN StartTxn([m2 EXCEPT !.crl = m1.lcr, !.lout = o], o)
+                ELSE IF m1.nb THEN [m2 EXCEPT !.lout = o] ELSE m2
           ELSE [m1 EXCEPT !.line = Append(@, b), !.nb = @ \/ b # CR, !.lcr = @ \/ (b = CR /\ m1.nb)]
 
 RECURSIVE MonNested(_, _, _)
@@ -450,10 +452,19 @@ MonNestedLost(m, ins) ==
                    [] OTHER -> m
        IN MonNestedLost(m1, Tail(ins))
 
+\* Even while lost, a handler of the command machine must belong to the line whose LF was consumed last
+\* (C02 is a statement about lines, and the line tracker and the descriptor mirror are always up to date).
+LightC02(m, e) ==
+  LET o == m.lout
+      want == CASE o.k = "run" -> "run" [] o.k = "read" -> "read" [] o.k = "write" -> "write" [] o.k = "test" -> "test" [] OTHER -> "none"
+  IN IF want = "none" \/ e.c # o.c \/ e.kind # want
+     THEN [m EXCEPT !.bad = IF Len(@) < 12 THEN Append(@, [p |-> "C02", why |-> <<"handler does not belong to the last command line", e.kind, e.c, o.k, o.c>>, at |-> m.n, sid |-> m.cfg.sid]) ELSE @]
+     ELSE m
+
 OnEvent(m, e) ==
   CASE e.k = "rd" -> OnRd(m, e.b)
     [] e.k = "wr" -> IF e.ok THEN MatchByte(ConsumeRelease(m), e.b) ELSE m
-    [] e.k = "cmd" -> IF m.lost THEN MonNestedLost(m, e.in) ELSE IF e.fsm = "cmd" THEN OnCmdC(m, e) ELSE OnCmdE(m, e)
+    [] e.k = "cmd" -> IF m.lost THEN MonNestedLost(IF e.fsm = "cmd" THEN LightC02(m, e) ELSE m, e.in) ELSE IF e.fsm = "cmd" THEN OnCmdC(m, e) ELSE OnCmdE(m, e)
     [] e.k = "vr" -> IF m.lost THEN MonNestedLost(m, e.in) ELSE OnVr(m, e)
     [] e.k = "vw" -> IF m.lost THEN MonNestedLost(m, e.in) ELSE OnVw(m, e)
     [] e.k = "mem" -> OnMem(m, e)
